@@ -51,9 +51,9 @@ Lemma svg_encoded_escaped : forall t, XEscaped (svg_encode_text t).
 Proof.
   induction t as [|c r IH]; [constructor|].
   rewrite svg_encode_cons.
-  destruct (c =? 38) eqn:E38; [apply XS_ref; auto|].
-  destruct (c =? 60) eqn:E60; [apply XS_ref; auto|].
-  destruct (c =? 62) eqn:E62; [apply XS_ref; auto|].
+  destruct (c =? 38) eqn:E38; [apply XS_ref; unfold xml_is_ref; auto|].
+  destruct (c =? 60) eqn:E60; [apply XS_ref; unfold xml_is_ref; auto|].
+  destruct (c =? 62) eqn:E62; [apply XS_ref; unfold xml_is_ref; auto|].
   apply XS_char; auto; unfold xml_lt, xml_amp; intros ->; discriminate.
 Qed.
 
@@ -67,6 +67,76 @@ Proof.
   cbn in H. destruct H as [H|[]]. subst c. discriminate.
 Qed.
 
+(* ---- the foreground fragment: encode_text, then CR -> &#13; ---------------- *)
+
+Definition svg_fg_piece (c : N) : list N :=
+  if c =? 38 then [38; 97; 109; 112; 59] else if c =? 60 then [38; 108; 116; 59] else if c =? 62 then [38; 103; 116; 59]
+  else if c =? 13 then [38; 35; 49; 51; 59] else [c].
+
+Lemma svg_encode_fg_cons c r : svg_encode_fg (c :: r) = svg_fg_piece c ++ svg_encode_fg r.
+Proof.
+  unfold svg_encode_fg. rewrite svg_encode_cons. unfold svg_replace_cr. rewrite flat_map_app. f_equal. unfold svg_fg_piece.
+  destruct (c =? 38) eqn:E38; [reflexivity|].
+  destruct (c =? 60) eqn:E60; [reflexivity|].
+  destruct (c =? 62) eqn:E62; [reflexivity|].
+  cbn [flat_map]. rewrite app_nil_r. reflexivity.
+Qed.
+
+Lemma svg_fg_piece_cases c :
+  (svg_fg_piece c = [c] /\ c <> 38 /\ c <> 60 /\ c <> 62 /\ c <> 13)
+  \/ (c = 38 /\ svg_fg_piece c = xml_ent_amp) \/ (c = 60 /\ svg_fg_piece c = xml_ent_lt)
+  \/ (c = 62 /\ svg_fg_piece c = xml_ent_gt) \/ (c = 13 /\ svg_fg_piece c = xml_ref_cr).
+Proof.
+  unfold svg_fg_piece.
+  destruct (c =? 38) eqn:E38; [apply N.eqb_eq in E38; subst; auto|].
+  destruct (c =? 60) eqn:E60; [apply N.eqb_eq in E60; subst; auto|].
+  destruct (c =? 62) eqn:E62; [apply N.eqb_eq in E62; subst; auto 6|].
+  destruct (c =? 13) eqn:E13; [apply N.eqb_eq in E13; subst; auto 6|].
+  apply N.eqb_neq in E38, E60, E62, E13. auto 6.
+Qed.
+
+Lemma svg_fg_unescape : forall t, xml_unescape (svg_encode_fg t) = t.
+Proof.
+  unfold xml_unescape. induction t as [|c r IH]; [reflexivity|].
+  rewrite svg_encode_fg_cons.
+  destruct (svg_fg_piece_cases c) as [(-> & H38 & _)|[(-> & ->)|[(-> & ->)|[(-> & ->)|(-> & ->)]]]].
+  - cbn [app xml_unescape_go]. unfold xml_amp. apply N.eqb_neq in H38. rewrite H38. f_equal. exact IH.
+  - change (xml_unescape_go 0 (38 :: [97; 109; 112; 59] ++ svg_encode_fg r) = 38 :: r).
+    cbn [xml_unescape_go]. change (38 =? xml_amp) with true. cbv iota.
+    replace (svg_starts_with [97; 109; 112; 59] ([97; 109; 112; 59] ++ svg_encode_fg r)) with true by reflexivity.
+    f_equal. rewrite (svg_unescape_skip [97; 109; 112; 59]). exact IH.
+  - change (xml_unescape_go 0 (38 :: [108; 116; 59] ++ svg_encode_fg r) = 60 :: r).
+    cbn [xml_unescape_go]. change (38 =? xml_amp) with true. cbv iota.
+    replace (svg_starts_with [97; 109; 112; 59] ([108; 116; 59] ++ svg_encode_fg r)) with false by reflexivity.
+    replace (svg_starts_with [108; 116; 59] ([108; 116; 59] ++ svg_encode_fg r)) with true by reflexivity.
+    f_equal. rewrite (svg_unescape_skip [108; 116; 59]). exact IH.
+  - change (xml_unescape_go 0 (38 :: [103; 116; 59] ++ svg_encode_fg r) = 62 :: r).
+    cbn [xml_unescape_go]. change (38 =? xml_amp) with true. cbv iota.
+    replace (svg_starts_with [97; 109; 112; 59] ([103; 116; 59] ++ svg_encode_fg r)) with false by reflexivity.
+    replace (svg_starts_with [108; 116; 59] ([103; 116; 59] ++ svg_encode_fg r)) with false by reflexivity.
+    replace (svg_starts_with [103; 116; 59] ([103; 116; 59] ++ svg_encode_fg r)) with true by reflexivity.
+    f_equal. rewrite (svg_unescape_skip [103; 116; 59]). exact IH.
+  - change (xml_unescape_go 0 (38 :: [35; 49; 51; 59] ++ svg_encode_fg r) = 13 :: r).
+    cbn [xml_unescape_go]. change (38 =? xml_amp) with true. cbv iota.
+    replace (svg_starts_with [97; 109; 112; 59] ([35; 49; 51; 59] ++ svg_encode_fg r)) with false by reflexivity.
+    replace (svg_starts_with [108; 116; 59] ([35; 49; 51; 59] ++ svg_encode_fg r)) with false by reflexivity.
+    replace (svg_starts_with [103; 116; 59] ([35; 49; 51; 59] ++ svg_encode_fg r)) with false by reflexivity.
+    replace (svg_starts_with [35; 49; 51; 59] ([35; 49; 51; 59] ++ svg_encode_fg r)) with true by reflexivity.
+    f_equal. rewrite (svg_unescape_skip [35; 49; 51; 59]). exact IH.
+Qed.
+
+Lemma svg_fg_escaped : forall t, XEscaped (svg_encode_fg t) /\ ~ In 60 (svg_encode_fg t) /\ ~ In 13 (svg_encode_fg t).
+Proof.
+  induction t as [|c r (IH1 & IH2 & IH3)]; [repeat split; [constructor | intros [] | intros []]|].
+  rewrite svg_encode_fg_cons.
+  destruct (svg_fg_piece_cases c) as [(-> & H38 & H60 & _ & H13)|[(-> & ->)|[(-> & ->)|[(-> & ->)|(-> & ->)]]]].
+  - repeat split; [apply XS_char; assumption | |]; intros [E|E]; auto.
+  - repeat split; [apply XS_ref; unfold xml_is_ref; auto | |]; intros E; apply in_app_or in E; destruct E as [E|E]; auto; cbn in E; intuition discriminate.
+  - repeat split; [apply XS_ref; unfold xml_is_ref; auto | |]; intros E; apply in_app_or in E; destruct E as [E|E]; auto; cbn in E; intuition discriminate.
+  - repeat split; [apply XS_ref; unfold xml_is_ref; auto | |]; intros E; apply in_app_or in E; destruct E as [E|E]; auto; cbn in E; intuition discriminate.
+  - repeat split; [apply XS_ref; unfold xml_is_ref; auto | |]; intros E; apply in_app_or in E; destruct E as [E|E]; auto; cbn in E; intuition discriminate.
+Qed.
+
 Lemma svg_eol_id : forall x, ~ In 13 x -> xml_eol_go false x = x.
 Proof.
   induction x as [|c r IH]; intros H; [reflexivity|].
@@ -74,24 +144,13 @@ Proof.
   rewrite andb_false_r. f_equal. apply IH. intros Hr. apply H. right. exact Hr.
 Qed.
 
-Lemma svg_encoded_no_cr : forall t, ~ In 13 t -> ~ In 13 (svg_encode_text t).
+(* what an XML processor hands over for a foreground fragment is the fragment *)
+Lemma svg_parsed_text_roundtrip : forall t, xml_text_value (svg_encode_fg t) = t.
 Proof.
-  induction t as [|c r IH]; intros H; [intros []|].
-  rewrite svg_encode_cons. intros H1. apply in_app_or in H1. destruct H1 as [H1|H1].
-  - destruct (c =? 38); [cbn in H1; intuition discriminate|].
-    destruct (c =? 60); [cbn in H1; intuition discriminate|].
-    destruct (c =? 62); [cbn in H1; intuition discriminate|].
-    cbn in H1. destruct H1 as [H1|[]]. subst c. apply H. left. reflexivity.
-  - revert H1. apply IH. intros Hr. apply H. right. exact Hr.
+  intros t. unfold xml_text_value, xml_eol. rewrite svg_eol_id by apply svg_fg_escaped. apply svg_fg_unescape.
 Qed.
 
-(* what an XML processor hands over: faithful exactly when there is no CR *)
-Lemma svg_parsed_text_roundtrip : forall t, ~ In 13 t -> xml_text_value (svg_encode_text t) = t.
-Proof.
-  intros t H. unfold xml_text_value, xml_eol. rewrite svg_eol_id by (apply svg_encoded_no_cr; exact H).
-  apply svg_escape_roundtrip.
-Qed.
-
+(* why the CR has to be a reference: written literally it comes back as LF *)
 Lemma svg_parsed_text_cr_witness : xml_text_value (svg_encode_text [97; 13; 98]) = [97; 10; 98].
 Proof. vm_compute. reflexivity. Qed.
 
@@ -116,15 +175,17 @@ Qed.
 Lemma svg_xml_char_text c : xml_char c = true -> (c =? 38) = false -> (c =? 60) = false -> (c =? 62) = false -> xml_text_char c = true.
 Proof. intros H A B C. unfold xml_text_char, xml_lt, xml_amp, xml_gt. rewrite H, A, B, C. reflexivity. Qed.
 
-Lemma svg_XContent_encode : forall t, forallb xml_char t = true -> XContent (svg_encode_text t).
+Lemma svg_XContent_encode : forall t, forallb xml_char t = true -> XContent (svg_encode_fg t).
 Proof.
   induction t as [|c r IH]; intros H; [constructor|].
   cbn [forallb] in H. apply andb_true_iff in H. destruct H as [Hc Hr].
-  rewrite svg_encode_cons.
-  destruct (c =? 38) eqn:E38; [apply XC_ref; auto|].
-  destruct (c =? 60) eqn:E60; [apply XC_ref; auto|].
-  destruct (c =? 62) eqn:E62; [apply XC_ref; auto|].
-  apply XC_char; auto using svg_xml_char_text.
+  rewrite svg_encode_fg_cons.
+  destruct (svg_fg_piece_cases c) as [(-> & H38 & H60 & H62 & _)|[(-> & ->)|[(-> & ->)|[(-> & ->)|(-> & ->)]]]].
+  - apply XC_char; auto. apply svg_xml_char_text; auto; apply N.eqb_neq; assumption.
+  - apply XC_ref; [unfold xml_is_ref; auto | auto].
+  - apply XC_ref; [unfold xml_is_ref; auto | auto].
+  - apply XC_ref; [unfold xml_is_ref; auto | auto].
+  - apply XC_ref; [unfold xml_is_ref; auto | auto].
 Qed.
 
 Lemma svg_elem_wf n atts c : xml_name n = true -> xml_atts_ok atts -> XContent c -> XElement (svg_elem n atts c).
@@ -427,15 +488,6 @@ Fixpoint svg_part (cur t : list N) : list (list N) * list N :=
   | c :: r => if c =? 10 then (svg_drop_cr cur :: fst (svg_part [] r), snd (svg_part [] r)) else svg_part (cur ++ [c]) r
   end.
 
-Definition svg_ends2 (cur : list N) : Prop := exists x, cur = x ++ [13; 13].
-
-(* no line end is preceded by two carriage returns *)
-Fixpoint svg_okp (cur t : list N) : Prop :=
-  match t with
-  | [] => True
-  | c :: r => if c =? 10 then ~ svg_ends2 cur /\ svg_okp [] r else svg_okp (cur ++ [c]) r
-  end.
-
 Lemma svg_part_app : forall a cur b,
   svg_part cur (a ++ b) = (fst (svg_part cur a) ++ fst (svg_part (snd (svg_part cur a)) b), snd (svg_part (snd (svg_part cur a)) b)).
 Proof.
@@ -446,15 +498,6 @@ Proof.
     + apply IH.
 Qed.
 
-Lemma svg_okp_app : forall a cur b, svg_okp cur (a ++ b) -> svg_okp cur a /\ svg_okp (snd (svg_part cur a)) b.
-Proof.
-  induction a as [|c a IH]; intros cur b H.
-  - split; [exact I | exact H].
-  - cbn [app svg_okp svg_part] in *. destruct (c =? 10).
-    + destruct H as [H1 H2]. destruct (IH [] b H2) as [A B]. cbn [snd]. auto.
-    + apply IH, H.
-Qed.
-
 Lemma svg_split_acc_part : forall t cur, svg_split_acc cur t = fst (svg_part cur t) ++ [snd (svg_part cur t)].
 Proof.
   induction t as [|c r IH]; intros cur; [reflexivity|].
@@ -463,88 +506,60 @@ Proof.
   - apply IH.
 Qed.
 
-Lemma svg_crcrlf_suffix : forall a b, svg_has_crcrlf (a ++ b) = false -> svg_has_crcrlf b = false.
-Proof.
-  induction a as [|c a IH]; intros b H; [exact H|].
-  cbn [app svg_has_crcrlf] in H. apply orb_false_iff in H. destruct H as [_ H]. apply IH, H.
-Qed.
-
-Lemma svg_crcrlf_found : forall x r, svg_has_crcrlf (x ++ 13 :: 13 :: 10 :: r) = true.
-Proof.
-  induction x as [|c x IH]; intros r; [reflexivity|].
-  cbn [app svg_has_crcrlf]. rewrite IH. apply orb_true_r.
-Qed.
-
-Lemma svg_okp_of_crcrlf : forall t cur, svg_has_crcrlf (cur ++ t) = false -> svg_okp cur t.
-Proof.
-  induction t as [|c r IH]; intros cur H; [exact I|].
-  cbn [svg_okp]. destruct (c =? 10) eqn:E.
-  - apply N.eqb_eq in E. subst c. split.
-    + intros [x Hx]. subst cur. rewrite <- app_assoc in H. cbn [app] in H. rewrite svg_crcrlf_found in H. discriminate.
-    + apply (IH []). cbn [app]. apply (svg_crcrlf_suffix (cur ++ [10])). rewrite <- app_assoc. exact H.
-  - apply IH. rewrite <- app_assoc. exact H.
-Qed.
-
 Lemma svg_run_loop_spec style : forall next cur cl lines,
-  svg_J cl -> (cur <> [] \/ cl = [] \/ next <> []) -> svg_okp (svg_txt cl ++ cur) next ->
+  svg_J cl -> (cur <> [] \/ cl = [] \/ next <> []) ->
   map svg_txt (fst (svg_run_loop style next cur cl lines)) = map svg_txt lines ++ fst (svg_part (svg_txt cl ++ cur) next)
   /\ svg_txt (snd (svg_run_loop style next cur cl lines)) = snd (svg_part (svg_txt cl ++ cur) next)
   /\ svg_J (snd (svg_run_loop style next cur cl lines))
   /\ snd (svg_run_loop style next cur cl lines) <> [].
 Proof.
-  induction next as [|c r IH]; intros cur cl lines HJ HQ Hok.
+  induction next as [|c r IH]; intros cur cl lines HJ HQ.
   - cbn [svg_run_loop svg_part fst snd]. rewrite app_nil_r, svg_txt_app. repeat split.
     + unfold svg_txt at 2. cbn. rewrite app_nil_r. reflexivity.
     + destruct cl as [|x tl]; [cbn; constructor|]. cbn [app svg_J]. cbn [svg_J] in HJ.
       apply Forall_app. split; [exact HJ|]. constructor; [|constructor]. cbn [snd].
       destruct HQ as [HQ|[HQ|HQ]]; [exact HQ | discriminate | contradiction].
     + intros E. apply app_eq_nil in E. destruct E as [_ E]. discriminate.
-  - cbn [svg_run_loop svg_part svg_okp] in *. destruct (c =? 10) eqn:E10.
-    + destruct Hok as [Hne Hok].
-      specialize (IH [] [] (lines ++ [(if svg_is_nil (svg_strip_cr cur) then svg_strip_last cl else cl) ++ [(style, svg_strip_cr cur)]])
-                    I (or_intror (or_introl eq_refl)) Hok).
+  - cbn [svg_run_loop svg_part] in *. destruct (c =? 10) eqn:E10.
+    + specialize (IH [] [] (lines ++ [(if svg_is_nil cur then svg_strip_last cl else cl) ++ [(style, svg_strip_cr cur)]])
+                    I (or_intror (or_introl eq_refl))).
       destruct IH as (A & B & C & D). cbn [svg_txt map List.concat app] in A, B.
       repeat split; [|exact B|exact C|exact D].
       rewrite A. rewrite map_app. cbn [map fst]. rewrite <- app_assoc. cbn [app]. f_equal. f_equal.
       rewrite svg_txt_app. unfold svg_txt at 2. cbn [map snd List.concat]. rewrite app_nil_r.
-      destruct (svg_strip_cr cur) eqn:Es; cbn [svg_is_nil].
-      * rewrite app_nil_r, svg_strip_last_txt by exact HJ.
-        destruct (svg_strip_nil_cases cur Es) as [-> | ->].
-        -- rewrite app_nil_r. reflexivity.
-        -- rewrite svg_drop_cr_snoc13. destruct (svg_drop_cr_cases (svg_txt cl)) as [H|H]; [exact H|].
-           exfalso. apply Hne. exists (svg_drop_cr (svg_txt cl)). rewrite H at 1. rewrite <- app_assoc. reflexivity.
-      * rewrite <- Es, svg_strip_is_drop. symmetry. apply svg_drop_cr_app. intros ->. discriminate.
+      destruct cur as [|x cur']; cbn [svg_is_nil].
+      * cbn [svg_strip_cr]. rewrite !app_nil_r. apply svg_strip_last_txt, HJ.
+      * rewrite svg_strip_is_drop. symmetry. apply svg_drop_cr_app. discriminate.
     + specialize (IH (cur ++ [c]) cl lines HJ).
-      rewrite !app_assoc in IH. apply IH; [|exact Hok]. left. intros E. apply app_eq_nil in E. destruct E. discriminate.
+      rewrite !app_assoc in IH. apply IH. left. intros E. apply app_eq_nil in E. destruct E. discriminate.
 Qed.
 
 Lemma svg_split_go_spec : forall styled cl lines,
-  Forall (fun p => snd p <> []) styled -> svg_J cl -> svg_okp (svg_txt cl) (svg_visible styled) ->
+  Forall (fun p => snd p <> []) styled -> svg_J cl ->
   map svg_txt (svg_split_go styled cl lines)
   = map svg_txt lines ++ fst (svg_part (svg_txt cl) (svg_visible styled))
     ++ (if svg_is_nil cl && svg_is_nil styled then [] else [snd (svg_part (svg_txt cl) (svg_visible styled))]).
 Proof.
-  induction styled as [|[s t] rest IH]; intros cl lines Hne HJ Hok.
+  induction styled as [|[s t] rest IH]; intros cl lines Hne HJ.
   - cbn [svg_split_go svg_visible map List.concat svg_part fst snd]. destruct cl; cbn [svg_is_nil andb app].
     + rewrite app_nil_r. reflexivity.
     + rewrite map_app. reflexivity.
   - cbn [svg_split_go]. inversion Hne as [|? ? Ht Hrest]. subst. cbn [snd] in Ht.
     change (svg_visible ((s, t) :: rest)) with (t ++ svg_visible rest) in *.
-    destruct (svg_okp_app _ _ _ Hok) as [Hok1 Hok2].
     pose proof (svg_run_loop_spec s t [] cl lines HJ (or_intror (or_intror Ht))) as R.
-    rewrite app_nil_r in R. specialize (R Hok1). destruct R as (A & B & C & D).
+    rewrite app_nil_r in R. destruct R as (A & B & C & D).
     destruct (svg_run_loop s t [] cl lines) as [lines1 cl1]. cbn [fst snd] in A, B, C, D.
-    rewrite <- B in Hok2. rewrite (IH cl1 lines1 Hrest C Hok2).
+    rewrite (IH cl1 lines1 Hrest C).
     rewrite A, svg_part_app, B. cbn [fst snd]. rewrite <- !app_assoc.
     destruct cl1; [contradiction|]. cbn [svg_is_nil andb]. rewrite andb_false_r. reflexivity.
 Qed.
 
 Lemma svg_split_lines_spec styled :
-  Forall (fun p => snd p <> []) styled -> svg_has_crcrlf (svg_visible styled) = false ->
+  Forall (fun p => snd p <> []) styled ->
   map svg_txt (svg_split_lines styled) = svg_split_nl_dropping_cr (svg_visible styled).
 Proof.
-  intros Hne Hcr. unfold svg_split_lines.
-  rewrite svg_split_go_spec; [|exact Hne|exact I|apply svg_okp_of_crcrlf; exact Hcr].
+  intros Hne. unfold svg_split_lines.
+  rewrite svg_split_go_spec; [|exact Hne|exact I].
   cbn [map app svg_txt List.concat svg_is_nil andb].
   destruct styled as [|[s t] rest]; [reflexivity|].
   cbn [svg_is_nil]. unfold svg_split_nl_dropping_cr.
@@ -756,31 +771,19 @@ Qed.
 
 Theorem svg_text_preserved t input d runs p c :
   extract_next input parser_new capture_default = Some (runs, p, c) -> svg_doc t input = Some d ->
-  svg_has_crcrlf (svg_visible runs) = false ->
   map svg_line_text (svg_fg_lines d) = svg_split_nl_dropping_cr (svg_visible runs).
 Proof.
-  intros He Hd Hcr. destruct (svg_doc_parts _ _ _ _ _ _ He Hd) as (Hl & _).
+  intros He Hd. destruct (svg_doc_parts _ _ _ _ _ _ He Hd) as (Hl & _).
   unfold svg_fg_lines. rewrite map_map. rewrite (svg_lines_of_text _ _ Hl).
   rewrite <- (svg_inverted_visible t runs). apply svg_split_lines_spec.
-  - apply svg_inverted_nonempty. eapply svg_extract_next_ok; eauto.
-  - rewrite svg_inverted_visible. exact Hcr.
+  apply svg_inverted_nonempty. eapply svg_extract_next_ok; eauto.
 Qed.
 
-(* the deviation that the hypothesis excludes: a CR, a style change, CR LF *)
-Lemma svg_text_crcrlf_witness :
-  exists input d runs p c,
-    extract_next input parser_new capture_default = Some (runs, p, c) /\ svg_doc svg_term_new input = Some d /\
-    svg_visible runs = [97; 13; 13; 10; 98] /\
-    map svg_line_text (svg_fg_lines d) = [[97]; [98]] /\
-    svg_split_nl_dropping_cr (svg_visible runs) = [[97; 13]; [98]].
-Proof.
-  set (input := [97; 13; 27; 91; 51; 49; 109; 13; 10; 98]).
-  destruct (extract_next input parser_new capture_default) as [[[runs p] c]|] eqn:E; [|vm_compute in E; discriminate].
-  destruct (svg_doc svg_term_new input) as [d|] eqn:D; [|vm_compute in D; discriminate].
-  exists input, d, runs, p, c. split; [exact E|]. split; [exact D|].
-  vm_compute in E. injection E as <- _ _. vm_compute in D. injection D as <-.
-  repeat split; reflexivity.
-Qed.
+(* the corner repaired last: a CR, a style change, CR LF keeps the first CR *)
+Lemma svg_text_two_cr_example :
+  exists d, svg_doc svg_term_new [97; 13; 27; 91; 51; 49; 109; 13; 10; 98] = Some d /\
+    map svg_line_text (svg_fg_lines d) = [[97; 13]; [98]].
+Proof. eexists. split; vm_compute; reflexivity. Qed.
 
 Lemma svg_lines_of_length : forall lines ls, svg_lines_of lines = Some ls -> length ls = length lines.
 Proof.
@@ -793,12 +796,11 @@ Qed.
 Theorem svg_height_counts_lines t input d runs p c :
   extract_next input parser_new capture_default = Some (runs, p, c) -> svg_doc t input = Some d ->
   svg_d_height d = N.of_nat (length (svg_d_lines d)) * svg_line_height + svg_padding * 2
-  /\ (svg_has_crcrlf (svg_visible runs) = false ->
-      length (svg_d_lines d) = length (svg_split_nl_dropping_cr (svg_visible runs))).
+  /\ length (svg_d_lines d) = length (svg_split_nl_dropping_cr (svg_visible runs)).
 Proof.
   intros He Hd. destruct (svg_doc_parts _ _ _ _ _ _ He Hd) as (Hl & _ & Hh & _). split.
   - rewrite Hh, (svg_lines_of_length _ _ Hl). reflexivity.
-  - intros Hcr. rewrite <- (svg_text_preserved _ _ _ _ _ _ He Hd Hcr). unfold svg_fg_lines. rewrite !map_length. reflexivity.
+  - rewrite <- (svg_text_preserved _ _ _ _ _ _ He Hd). unfold svg_fg_lines. rewrite !map_length. reflexivity.
 Qed.
 
 (* ---- where a fragment comes from ------------------------------------------ *)
@@ -842,7 +844,7 @@ Proof.
       * constructor.
       * apply Forall_app. split; [exact Hl|]. constructor; [|constructor].
         apply Forall_app. split.
-        -- destruct (svg_is_nil (svg_strip_cr cur)); [apply svg_strip_last_from|]; exact Hcl.
+        -- destruct (svg_is_nil cur); [apply svg_strip_last_from|]; exact Hcl.
         -- constructor; [|constructor]. exists (pre ++ cur ++ 10 :: r). split; [exact Hin|].
            apply svg_sub_strip. exists pre, (10 :: r). reflexivity.
     + apply (IH (cur ++ [c]) cl lines pre); [|exact Hcl|exact Hl]. rewrite <- app_assoc. exact Hin.
